@@ -487,12 +487,18 @@ def entriesOf (t : Tree) (root : Path) : List Entry :=
   (t.filter (fun e => pre root e.1 && !((e.1.drop root.length).contains [46, 103, 105, 116]))).map
     (fun e => (e.1, ekindOf e.2))
 
-/-- `renamify rename <search> <replace> <roots…>` up to the plan's `paths`:
-    scan every root, refuse on conflicts, drop the roots themselves -/
-def planRenames (T : Tables) (o : Opts) (vmap : List VEntry) (t : Tree) (roots : List Path)
+/-- `renamify rename <search> <replace> <roots…>` up to the plan's `paths`, for any walker (`walk root` = the
+    entries the walk of that root yields): scan every root with its own walk, refuse on conflicts, drop the roots
+    themselves -/
+def planRenamesWith (T : Tables) (o : Opts) (vmap : List VEntry) (walk : Path → List Entry) (roots : List Path)
     (cliRenameRoot : Bool := false) : Except Nat (List Ren) :=
-  match planMulti T o vmap (roots.map (entriesOf t)) with
+  match planMulti T o vmap (roots.map walk) with
   | .error n => .error n
   | .ok rs => .ok (filterRoots roots cliRenameRoot rs)
+
+/-- … with the walker that ignores nothing -/
+def planRenames (T : Tables) (o : Opts) (vmap : List VEntry) (t : Tree) (roots : List Path)
+    (cliRenameRoot : Bool := false) : Except Nat (List Ren) :=
+  planRenamesWith T o vmap (entriesOf t) roots cliRenameRoot
 
 end RenamePlan
